@@ -135,6 +135,25 @@ def local_consts(fn, ns):
     return loc
 
 
+def ast_of(func):
+    """(AST of a function object's definition, its global namespace) — wherever in the package it is defined today
+    (a function moved to another module and re-exported under the old name is followed)"""
+    import inspect
+    import textwrap
+    func = inspect.unwrap(func)
+    try:
+        src = textwrap.dedent(inspect.getsource(func))
+        node = ast.parse(src).body[0]
+    except (OSError, TypeError, SyntaxError, IndexError) as e:
+        raise Shape('no source for %r: %s' % (func, e))
+    if not isinstance(node, (ast.FunctionDef,)):
+        raise Shape('%r is not defined by a def statement' % (func,))
+    f = inspect.getsourcefile(func) or ''
+    if not os.path.realpath(f).startswith(os.path.realpath(REPO)):
+        raise Shape('%r is defined outside the checkout (%s)' % (func, f))
+    return node, dict(func.__globals__)
+
+
 FAILED = []          # (group, message): definitions that could not be extracted; only their dependants break
 
 
@@ -422,13 +441,12 @@ HVAL_TYPE_ORDER = ['str', 'int', 'float', 'bool']
 
 @group('helpers.hval')
 def gen_hval(out):
-    tree, _ = parse('ombott/common_helpers.py')
     mod = rt('ombott.common_helpers')
-    fn = find_func(tree, '_hval')
-    ns = local_consts(fn, vars(mod))
     forb = []
     types = None
     try:
+        fn, g = ast_of(mod._hval)
+        ns = local_consts(fn, g)
         for n in ast.walk(fn):
             if isinstance(n, ast.Compare) and len(n.ops) == 1 and isinstance(n.ops[0], ast.In) \
                     and isinstance(n.comparators[0], ast.Name) and n.comparators[0].id == 'value':
@@ -526,10 +544,8 @@ def gen_html_escape(out):
 
 
 def _gen_html_escape_ast(out):
-    tree, _ = parse('ombott/common_helpers.py')
-    ns = vars(rt('ombott.common_helpers'))
     # html_escape: chain of .replace(a, b), possibly split over several `name = ...replace(...)` statements
-    fn = find_func(tree, 'html_escape')
+    fn, ns = ast_of(rt('ombott.common_helpers').html_escape)
     params = [a.arg for a in fn.args.args]
     if len(params) != 1:
         raise Shape('html_escape signature')
@@ -710,13 +726,25 @@ def gen_body(out):
 def gen_request(out):
     """request.py: BaseRequest._on_env_changed — which cached views an environ key invalidates;
     body_mixin.py: the cache key of BodyMixin._body and the shape of BodyMixin.body (cached object, rewound)."""
-    tree, _ = parse('ombott/request_pkg/request.py')
-    fn = find_func(find_class(tree, 'BaseRequest'), '_on_env_changed')
+    fn, _g = ast_of(rt('ombott.request_pkg.request').BaseRequest._on_env_changed)
     args = [a.arg for a in fn.args.args]
     if len(args) != 3:
         raise Shape('_on_env_changed: expected (request, key, v)')
     keyname = args[1]
-    body = [n for n in fn.body if not (isinstance(n, ast.Expr) and isinstance(n.value, ast.Constant))]
+
+    def is_noise(n):
+        # docstrings and diagnostics (logger.debug(...), logging.info(...), warnings.warn(...)) carry no behaviour
+        if isinstance(n, ast.Expr) and isinstance(n.value, ast.Constant):
+            return True
+        if isinstance(n, ast.Expr) and isinstance(n.value, ast.Call) and isinstance(n.value.func, ast.Attribute) \
+                and isinstance(n.value.func.value, ast.Name) \
+                and n.value.func.value.id in ('logger', 'log', 'logging', '_log', '_logger', 'LOG', 'warnings'):
+            return True
+        if isinstance(n, ast.If) and all(is_noise(x) for x in n.body + n.orelse) \
+                and not any(isinstance(x, (ast.Call, ast.NamedExpr, ast.Yield, ast.Await)) for x in ast.walk(n.test)):
+            return True                 # `if todelete: logger.debug(...)`: a guard around diagnostics only
+        return False
+    body = [n for n in fn.body if not is_noise(n)]
     consts = {}
 
     def tup(node):
